@@ -152,6 +152,32 @@ SPECS = [
                      ("(merge_by lt_fwd sub_streams)", "LIST")}),
 ]
 
+# ------------------------------------------------------------------------------------------------
+# Second extension.  core.py: _SourceState is the record sstate of Model/Sweeps.v (the iterator is the
+# list of the items not yet consumed); its methods return (the object afterwards, the result).
+SS_REC = {"SS": dict(coq="sstate", mk="mkS", cls="_SourceState",
+                     fields=[("current", "cur", "OIVL"), ("_iterator", "rest", "LIST"),
+                             ("exhausted", "exh", "B"), ("last_processed_cutoff", "lpc", "OZ")],
+                     default="(mkS None [] true None)")}
+CORE = "calgebra/core.py"
+
+SPECS += [
+    dict(name="g_ss_advance", file=CORE, cls="_SourceState", func="advance", kind="method", records=SS_REC,
+         params=[("self", "SS")], ret="B"),
+    dict(name="g_ss_init", file=CORE, cls="_SourceState", func="__init__", kind="init", records=SS_REC, record="SS",
+         params=[("iterator", "LIST")]),
+    dict(name="g_ss_advance_if_ends_at", file=CORE, cls="_SourceState", func="advance_if_ends_at", kind="method",
+         records=SS_REC, params=[("self", "SS"), ("cutoff", "Z")], ret="B"),
+    dict(name="g_ss_advance_if_stalled", file=CORE, cls="_SourceState", func="advance_if_stalled", kind="method",
+         records=SS_REC, params=[("self", "SS"), ("cutoff", "Z")], ret="B"),
+    dict(name="g_ss_was_processed_at", file=CORE, cls="_SourceState", func="was_processed_at", kind="expr",
+         records=SS_REC, method_of="SS", params=[("self", "SS"), ("cutoff", "Z")], ret="B"),
+    # Intersection._sweep: emit_indices is a frozenset[int] — read as the ascending list of its members
+    # (Model/Loop.v, fs_of_list: trusted reading of the iteration order)
+    dict(name="g_inter_sweep", file=CORE, cls="Intersection", func="_sweep", kind="gen", res=True, records=SS_REC,
+         params=[("streams", "L:LIST"), ("emit_indices", "FS")]),
+]
+
 
 def regenerate(repo: Path, coq_dir: Path):
     """Rewrite Gen/Source.v if its content changed.  Returns ({name: error}, text)."""
